@@ -359,7 +359,13 @@ class UCSReplication(MessagePassingComputation):
                 for neighbor_name in c_def.node.neighbors:
                     if neighbor_name in self.computations:
                         continue
-                    agt = self.discovery.computation_agent(neighbor_name)
+                    try:
+                        agt = self.discovery.computation_agent(neighbor_name)
+                    except UnknownComputation:
+                        # The neighbor is currently not hosted anywhere we know
+                        # of (e.g. its agent just left and it is being
+                        # re-hosted): it cannot be used as a path target now.
+                        continue
                     self._replication_computations_cache.add((agt, self.route(agt)))
                     rep_comp = replication_computation_name(agt)
                     self.discovery.register_computation(rep_comp, agt, publish=False)
